@@ -277,6 +277,10 @@ class WcMatch(Generic[AnyStr]):
                 if self.is_aborted():  # pragma: no cover
                     break
 
+            # Aborted while validating folders: do not look at the files of this folder either
+            if self.is_aborted():  # pragma: no cover
+                break
+
             # Search files if they were found
             if files:
                 # Only search files that are in the include rules
